@@ -123,7 +123,8 @@ def replay_access_case(case):
                         continue
                     ch = f["grp"][nm]
                     ty = tys[nm]
-                    expected = proj.expected_elems(ty, vals[nm])
+                    from .openfile import expected_channel_elems
+                    expected = expected_channel_elems(info, nm, ty, vals[nm])
                     reference = None
                     for pth in sorted(rec["paths"], key=lambda p: p["path"]):
                         if mode not in pth["modes"]:
@@ -142,7 +143,7 @@ def replay_access_case(case):
                                     probs.append("length %d != %d" % (len(got), len(expected)))
                             elif got != reference:
                                 probs.append("differs from the first access path")
-                        elif got != expected:
+                        elif got != (expected if pth.get("scaled", True) else proj.expected_elems(ty, vals[nm])):
                             probs.append("data differs from the file's content")
                         if probs:
                             fails.append(({"kind": "access-path", "path": pth["path"], "mode": mode,
